@@ -680,8 +680,11 @@ func (sw *SessionWindow) SetCallback(callback func([]types.Row)) {
 // deadlock). Returns true if the event was absorbed into a triggered session.
 func (sw *SessionWindow) handleLateData(row types.Row) bool {
 	key := extractSessionCompositeKey(row.Data, sw.config.GroupByKeys)
+	// a fired session is open for late rows until the watermark reaches its end + allowance;
+	// whether the trigger goroutine has already removed it is a matter of timing
+	wmNow := sw.watermark.GetCurrentWatermark()
 	for _, info := range sw.triggeredSessions {
-		if !info.session.slot.Contains(row.Timestamp) {
+		if !info.session.slot.Contains(row.Timestamp) || !wmNow.Before(info.closeTime) {
 			continue
 		}
 		// Only a session of the event's own key may absorb it.
